@@ -72,7 +72,7 @@ for e in ("explore_prefix", "explore_segment", "nearest_unknown", "nearest_right
 MATRIX[("F", "deserialize", "payload")] = ["leaf_flag_even", "leaf_flag_odd", "no_header"]
 
 CELLS = sorted((s, e, a, b) for (s, e, a), bs in MATRIX.items() for b in bs)
-PROBES = [f"{s}:{e}:{a}:{b}" for s, e, a, b in CELLS] + ["bad-call-inside-open-batch", "bad-call-on-pruning-handle", "bad-call-from-inside-another-call", "twin-compared"]
+PROBES = [f"{s}:{e}:{a}:{b}" for s, e, a, b in CELLS] + ["bad-call-inside-open-batch", "bad-call-on-pruning-handle", "bad-call-from-inside-another-call", "bad-call-with-every-node-withheld", "twin-compared"]
 FAULTS = ["bad-request", "batch-abort", "batch-abort-base", "crash-reopen", "restart-regenerated-counts"]
 RULE = (
     f"each run: one of the scenarios H (HexaryTrie, prune on/off, batches), B (BinaryTrie + branch helpers), S "
@@ -153,11 +153,20 @@ class BadMixin:
         st = self.st
         scen, entry, arg, kind = cmd["scen"], cmd["entry"], cmd["arg"], cmd["bad"]
         before = snap()
+        db = getattr(self, "db", None)
+        blind = bool(cmd.get("blind")) and db is not None
+        if blind:
+            db.arm(withhold=set(db.raw()))
         try:
             res = fn()
         except BaseException as e:
             exc = e
+            if blind:
+                db.disarm()
+                st.probe("bad-call-with-every-node-withheld")
         else:
+            if blind:
+                db.disarm()
             shown = repr(res) if isinstance(res, (bytes, tuple, int, bool, type(None))) else f"<{type(res).__name__}>"
             self.viol("accepted", f"{scen} {entry}({arg}={kind}) was accepted and returned {shown[:80]}")
         want = expected(arg, kind)
@@ -507,6 +516,8 @@ def pick_cell(rng, scen):
 def bad_cmd(rng, scen, keys, values, extra=None):
     s, e, a, b = pick_cell(rng, scen)
     c = {"op": "bad", "scen": s, "entry": e, "arg": a, "bad": b}
+    if rng.random() < 0.3:
+        c["blind"] = 1
     if keys:
         c["k"] = hx(rng.choice(keys))
     if values:
